@@ -2,6 +2,7 @@ mod abs;
 mod absworld;
 mod build;
 mod common;
+mod fcheck;
 mod props;
 mod rng;
 mod sexp;
@@ -17,6 +18,10 @@ fn main() {
   }
   if args[1] == "compare" {
     compare(&args[2], &args[3]);
+    return;
+  }
+  if args[1] == "fcprobe" {
+    fcheck::probe(&args[2..]);
     return;
   }
   let prop = args[1].clone();
@@ -74,6 +79,7 @@ fn main() {
     "c13" => props::c13::run(&cfg),
     "c20" => props::c20::run(&cfg),
     "c07" => props::c07::run(&cfg),
+    "c10" => props::c10::run(&cfg),
     _ => {
       eprintln!("unknown property {}", prop);
       std::process::exit(2);
